@@ -151,4 +151,51 @@ def obligations(ctx):
                 if res == z3.sat:
                     oblig.violated(r, E, q, nxt, model, "the loop moves on to the next shard without having sent to / recorded the current one")
                     break
+
+    # ---- B-4b collection: every recorded receiver must have produced a handle before Ok
+    r = b.mk("B-4b", "StreamingShardDispatcher::dispatch, collecting the answers: the loop over the recorded receivers moves on, "
+                     "and the function returns Ok, only if the awaited receiver yielded Ok(Ok(handle)) and that handle was added "
+                     "to the result - a shard whose answer is an error, or whose channel was dropped, makes the whole dispatch fail")
+    out.append(b.results["B-4b"])
+    if r:
+        nexts2 = [e for e in E.events if re.search(r"IntoIter<.*Receiver<.*> as Iterator>::next$", e.func)]
+        hp = [e for e in E.events if re.search(r"Vec::<.*>::push$", e.func) and e.args
+              and isinstance(e.args[0], sym.Ref) and "handles" in E.local_names(e.args[0].place.local)]
+        if oblig.need_anchor(r, nexts2, "iteration over the pending receivers") and oblig.need_anchor(r, hp, "handles.push"):
+            r.nontrivial = True
+            by_layer = {}
+            for e in nexts2:
+                by_layer.setdefault(e.layer, e)
+            rets = [(reach, E.disc_term(env.get(0))) for (_n, reach, env) in E.returns]
+            for L, e in sorted(by_layer.items()):
+                p_here = [x for x in hp if x.layer == L]
+                took = z3.And(e.reach, z3.BitVec(f"disc({e.site})", 64) == 1)
+                pushed = z3.Or([x.reach for x in p_here]) if p_here else z3.BoolVal(False)
+                # the value pushed is the handle carried by Ok(Ok(..)) of this iteration's receiver
+                for x in p_here:
+                    d = sym.describe(x.args[1]) if len(x.args) > 1 else ""
+                    src = E.trace(x.args[1], x.env, depth=10) if len(x.args) > 1 else set()
+                    if not any(re.match(r"poll\(", y) for y in src) and not d.startswith("poll("):
+                        r.status = "violated"
+                        r.witness = {"what": f"the value added to the handles does not derive from the awaited receiver ({d[:80]})",
+                                     "span": f"{x.span[0]}:{x.span[1]}" if x.span else None, "call": x.func[:80], "path": [], "model": {}}
+                        break
+                if r.status != "holds":
+                    break
+                goals = []
+                nxt = by_layer.get(L + 1)
+                if nxt is not None:
+                    goals.append(("moves on to the next receiver", nxt.reach))
+                for reach, d in rets:
+                    if d is not None:
+                        goals.append(("returns Ok", z3.And(reach, d == 0)))
+                for what, g in goals:
+                    res, model = q.check(took, g, z3.Not(pushed), domain=E.domain)
+                    r.queries += 1
+                    if res == z3.sat:
+                        oblig.violated(r, E, q, e, model, f"dispatch {what} although the awaited receiver of a shard did not yield Ok(Ok(handle)) "
+                                                            "(error answer or dropped channel): the union silently lacks that shard")
+                        break
+                if r.status != "holds":
+                    break
     return out
